@@ -252,6 +252,10 @@ class ParticleReleaser(Iterator[pd.DataFrame]):
             if "lon" not in df.columns or "lat" not in df.columns:
                 logger.critical("Particle release must include position")
                 raise SystemExit(3)
+            # The conversion does not let a blank longitude or latitude through as such
+            if df[["lon", "lat"]].isna().any().any():
+                logger.critical("Particle release: row(s) without position")
+                raise SystemExit(3)
             try:
                 X, Y = grid.ll2xy(df["lon"], df["lat"])  # type: ignore
             except AttributeError as err:
